@@ -1,1 +1,162 @@
-//! cfg(kani) child module of `crates/core/src/backend/dry_run.rs` (harnesses to be added)
+//! C15 harnesses: cfg(kani) child module of `backend/dry_run.rs`.
+//! Contract of DryRunBackend over a recording inner backend: with `dry_run` set NO mutating call
+//! reaches the inner backend (and the call reports success); without it the call is forwarded exactly
+//! once with identical arguments and the inner result is returned.  All code under proof is loop-free.
+use super::*;
+use crate::backend::verif_mock::*;
+use crate::error::verif_kani_stubs as es;
+use std::sync::Arc;
+
+fn setup() -> (DryRunBackend<MockDecryptFull>, Arc<Log>, u16, bool) {
+    let log = Arc::new(Log::new());
+    let fail: u16 = kani::any();
+    let dry: bool = kani::any();
+    (DryRunBackend::new(MockDecryptFull::new(fail, log.clone()), dry), log, fail, dry)
+}
+
+fn any_id() -> Id {
+    let mut b = [0u8; 32];
+    b[0] = kani::any();
+    Id::new(b)
+}
+
+fn fails(mask: u16, op: u64) -> bool {
+    mask & (1 << op) != 0
+}
+
+#[kani::proof]
+#[kani::unwind(4)]
+#[kani::stub(crate::error::RusticError::new, es::new_stub)]
+fn c15_dry_run_write_bytes() {
+    let (be, log, fail, dry) = setup();
+    let tpe = any_filetype();
+    let id = any_id();
+    let cacheable: bool = kani::any();
+    let r = be.write_bytes(tpe, &id, cacheable, BytesList::from(Bytes::from_static(b"\x05x")));
+    let ok = r.is_ok();
+    core::mem::forget(r);
+    if dry {
+        assert!(log.len() == 0, "dry-run: no write reaches the repository");
+        assert!(ok);
+    } else {
+        assert!(log.len() == 1 && log.get(0) == event(0, OP_WRITE, tpe_code(tpe), cacheable, id_tag(&id), 2, 5, 0, 0));
+        assert!(ok == !fails(fail, OP_WRITE));
+    }
+    kani::cover!(dry);
+    kani::cover!(!dry && ok);
+}
+
+#[kani::proof]
+#[kani::stub(crate::error::RusticError::new, es::new_stub)]
+fn c15_dry_run_remove() {
+    let (be, log, fail, dry) = setup();
+    let tpe = any_filetype();
+    let id = any_id();
+    let cacheable: bool = kani::any();
+    let r = be.remove(tpe, &id, cacheable);
+    let ok = r.is_ok();
+    core::mem::forget(r);
+    if dry {
+        assert!(log.len() == 0, "dry-run: no removal reaches the repository");
+        assert!(ok);
+    } else {
+        assert!(log.len() == 1 && log.get(0) == event(0, OP_REMOVE, tpe_code(tpe), cacheable, id_tag(&id), 0, 0, 0, 0));
+        assert!(ok == !fails(fail, OP_REMOVE));
+    }
+    kani::cover!(dry);
+    kani::cover!(!dry && ok);
+}
+
+#[kani::proof]
+#[kani::stub(crate::error::RusticError::new, es::new_stub)]
+fn c15_dry_run_create() {
+    let (be, log, fail, dry) = setup();
+    let r = be.create();
+    let ok = r.is_ok();
+    core::mem::forget(r);
+    if dry {
+        assert!(log.len() == 0 && ok);
+    } else {
+        assert!(log.len() == 1 && log.get(0) == event(0, OP_CREATE, 0, false, 0, 0, 0, 0, 0));
+        assert!(ok == !fails(fail, OP_CREATE));
+    }
+    kani::cover!(dry);
+    kani::cover!(!dry && ok);
+}
+
+#[kani::proof]
+#[kani::stub(crate::error::RusticError::new, es::new_stub)]
+fn c15_dry_run_hash_write_full() {
+    let (be, log, fail, dry) = setup();
+    let tpe = any_filetype();
+    let d0: u8 = kani::any();
+    let data = [d0, 1u8, 2u8];
+    let r = be.hash_write_full(tpe, &data);
+    let ok = r.is_ok();
+    core::mem::forget(r);
+    if dry {
+        assert!(log.len() == 0 && ok, "dry-run: nothing is hashed-and-written");
+    } else {
+        assert!(log.len() == 1 && log.get(0) == event(0, OP_HASH_WRITE_FULL, tpe_code(tpe), false, 0, 3, d0, 0, 0));
+        assert!(ok == !fails(fail, OP_HASH_WRITE_FULL));
+    }
+    kani::cover!(dry);
+    kani::cover!(!dry && ok);
+}
+
+#[kani::proof]
+fn c15_dry_run_setters() {
+    let (mut be, log, _fail, dry) = setup();
+    let z: Option<i32> = kani::any();
+    let x: bool = kani::any();
+    be.set_zstd(z);
+    be.set_extra_verify(x);
+    if dry {
+        assert!(log.len() == 0, "dry-run: settings of the real backend are not touched");
+    } else {
+        assert!(log.len() == 2);
+        assert!(log.get(0) == event(0, OP_SET_ZSTD, 0, z.is_some(), 0, 0, 0, 0, 0));
+        assert!(log.get(1) == event(0, OP_SET_EXTRA_VERIFY, 0, x, 0, 0, 0, 0, 0));
+    }
+    kani::cover!(dry);
+    kani::cover!(!dry);
+}
+
+/// reads are always forwarded unchanged (a dry run sees the real repository)
+#[kani::proof]
+#[kani::stub(crate::error::RusticError::new, es::new_stub)]
+fn c15_dry_run_reads_forwarded() {
+    let (be, log, fail, _dry) = setup();
+    let tpe = any_filetype();
+    let id = any_id();
+    let which: u8 = kani::any();
+    kani::assume(which < 3);
+    match which {
+        0 => {
+            let r = be.read_full(tpe, &id);
+            let ok = r.is_ok();
+            core::mem::forget(r);
+            assert!(log.len() == 1 && log.get(0) == event(0, OP_READ_FULL, tpe_code(tpe), false, id_tag(&id), 0, 0, 0, 0));
+            assert!(ok == !fails(fail, OP_READ_FULL));
+        }
+        1 => {
+            let c: bool = kani::any();
+            let o: u8 = kani::any();
+            let l: u8 = kani::any();
+            let r = be.read_partial(tpe, &id, c, u32::from(o), u32::from(l));
+            let ok = r.is_ok();
+            core::mem::forget(r);
+            assert!(log.len() == 1 && log.get(0) == event(0, OP_READ_PARTIAL, tpe_code(tpe), c, id_tag(&id), 0, 0, u64::from(o), u64::from(l)));
+            assert!(ok == !fails(fail, OP_READ_PARTIAL));
+        }
+        _ => {
+            let r = be.list_with_size(tpe);
+            let ok = r.is_ok();
+            core::mem::forget(r);
+            assert!(log.len() == 1 && log.get(0) == event(0, OP_LIST, tpe_code(tpe), false, 0, 0, 0, 0, 0));
+            assert!(ok == !fails(fail, OP_LIST));
+        }
+    }
+    kani::cover!(which == 0);
+    kani::cover!(which == 2);
+}
